@@ -41,3 +41,41 @@ Section Ofb.
     call_fn X ofb__lib__StreamCipherCore__OfbCore__remaining_blocks [self] = Some (VOpt None, [self]).
   Proof. run_fn. reflexivity. Qed.
 End Ofb.
+
+(* ---- C03 over the translated source: the whole block sequence ---------------------------------------- *)
+From BM Require Import BlockModes_proofs Spec.
+Section OfbSource.
+  Variable C : cipher.
+  Let X := bctx C [] [("None", VOpt None)].
+  Definition src_ofb_enc_step (iv : block) (c : cell) : option (block * cell) :=
+    match call_fn X ofb__lib__BlockModeEncBackend__Backend__encrypt_block [be_self iv; VCell c] with
+    | Some (VUnit, [VStruct _ [("iv", VBlk iv'); _]; VCell c']) => Some (iv', c') | _ => None end.
+  Definition src_ofb_dec_step (iv : block) (c : cell) : option (block * cell) :=
+    match call_fn X ofb__lib__BlockModeDecBackend__Backend__decrypt_block [be_self iv; VCell c] with
+    | Some (VUnit, [VStruct _ [("iv", VBlk iv'); _]; VCell c']) => Some (iv', c') | _ => None end.
+
+  Theorem C03_ofb_enc_source s cs :
+    fold_src src_ofb_enc_step s cs
+    = Some (iter_E (c_E C) (length cs) s, map2 wr_out cs (ofb_spec (c_E C) s (map rd_in cs))).
+  Proof.
+    rewrite (fold_src_ok src_ofb_enc_step (ofb_enc_block C) (fun _ => True) (fun _ => True)).
+    - now rewrite ofb_enc_fold.
+    - intros st c _ _. unfold src_ofb_enc_step, X. rewrite (tie_ofb_encrypt_block C st c).
+      destruct (ofb_enc_block C st c). split; [reflexivity|exact I].
+    - exact I.
+    - apply Forall_forall. auto.
+  Qed.
+
+  (* the block decryptor is the same function *)
+  Theorem C03_ofb_dec_source s cs :
+    fold_src src_ofb_dec_step s cs
+    = Some (iter_E (c_E C) (length cs) s, map2 wr_out cs (ofb_spec (c_E C) s (map rd_in cs))).
+  Proof.
+    rewrite (fold_src_ok src_ofb_dec_step (ofb_dec_block C) (fun _ => True) (fun _ => True)).
+    - now rewrite ofb_dec_fold.
+    - intros st c _ _. unfold src_ofb_dec_step, X. rewrite (tie_ofb_decrypt_block C st c).
+      destruct (ofb_dec_block C st c). split; [reflexivity|exact I].
+    - exact I.
+    - apply Forall_forall. auto.
+  Qed.
+End OfbSource.
